@@ -44,6 +44,10 @@ Parts(x) ==
              ELSE IF /\ PrincOK(m, m.princ, PrincOf(x.pn))
                      /\ IdentityOK(m, ObsIdentity(x.identity)) /\ x.identity.realm2 = x.identity.realm THEN {} ELSE {<<"identity", 0>>})
        \cup ClientParts(m, x)
+       \* what was parsed is still what was written after the library has used it: a client was built from the cache and destroyed,
+       \* a second client was built from it afterwards and sees the same sessions and tickets
+       \cup (IF x.credsAfter = x.creds THEN {} ELSE {<<"changed_by_use", 0>>})
+       \cup (IF x.client2 = x.client THEN {} ELSE {<<"second_client_differs", 0>>})
 Init == LT!Init
 Next == LT!Next
 Check == ~LT!Active \/ LET ps == Parts(Tr[l]) IN
